@@ -17,7 +17,8 @@ Text forms (standard base64, as used by every `Display` / `FromStr`): `b64_round
 (decode ∘ encode = id for every byte string), `b64_canonical` (a text the decoder accepts *is* the
 encoding of what it decodes to: padding, alphabet and trailing bits are canonical, so the text form is
 unique), `b64Encode_length`, `pod_text_roundtrip` (`FromStr ∘ Display = id` for every fixed-size type).
-The JSON reader/writer pair is differential only (serde_json's grammar; PARTIAL).
+JSON key files: `json_roundtrip` (the reader applied to the writer's output returns the bytes, any
+length); the grammar the reader accepts beyond that (whitespace, number syntax) is differential only.
 -/
 set_option linter.unusedSectionVars false
 namespace Zk.Props.C12
@@ -333,5 +334,138 @@ theorem b64_canonical (s b : Bytes) (h : b64Decode s = some b) : b64Encode b = s
     have f4 : (x * 262144 + y * 4096 + z * 64 + w) % 64 = w := by omega
     rw [f1, f2, f3, f4, hxc, hyc, hzc, hwc]
   | case5 s h1 h2 h3 h4 => simp at h
+
+/-! ## JSON byte arrays (key files) -/
+
+def digitsOk (i : Nat) : Bool :=
+  let ds := natDigits i
+  ds.all isDigit && !ds.isEmpty && !(decide (ds.length > 1) && ds.head? == some 48) && decide (ds.length ≤ 3)
+    && (ds.foldl (fun acc d => acc * 10 + (d.toNat - 48)) 0 == i)
+
+theorem digitsOk_all : ∀ i : Fin 256, digitsOk i.1 = true := by decide +kernel
+
+theorem takeWhile_digits (ds : Bytes) (c : UInt8) (r : Bytes) (h : ds.all isDigit = true) (hc : isDigit c = false) :
+    (ds ++ c :: r).takeWhile isDigit = ds ∧ (ds ++ c :: r).dropWhile isDigit = c :: r := by
+  induction ds with
+  | nil => simp [List.takeWhile, List.dropWhile, hc]
+  | cons d ds ih =>
+    simp only [List.all_cons, Bool.and_eq_true] at h
+    simp [List.takeWhile, List.dropWhile, h.1, ih h.2]
+
+/-- reading back the digits of a byte, followed by `,` or `]` -/
+theorem takeU8_digits (x : UInt8) (c : UInt8) (r : Bytes) (hc : c = 44 ∨ c = 93) :
+    takeU8 (natDigits x.toNat ++ c :: r) = some (x, c :: r) := by
+  have hok := digitsOk_all ⟨x.toNat, x.toNat_lt⟩
+  simp only [digitsOk, Bool.and_eq_true, Bool.not_eq_true', decide_eq_true_eq, beq_iff_eq,
+    Bool.and_eq_false_iff, decide_eq_false_iff_not] at hok
+  obtain ⟨⟨⟨⟨h1, h2⟩, h3⟩, h4⟩, h5⟩ := hok
+  have hcd : isDigit c = false := by rcases hc with rfl | rfl <;> decide
+  obtain ⟨e1, e2⟩ := takeWhile_digits _ c r h1 hcd
+  unfold takeU8
+  simp only [e1, e2]
+  have n1 : (natDigits x.toNat).isEmpty = false := h2
+  have n2 : ¬ ((natDigits x.toNat).length > 1 ∧ (natDigits x.toNat).head? = some 48) := by
+    rcases h3 with h | h
+    · exact fun hh => h hh.1
+    · intro hh; simp [hh.2] at h
+  have n3 : ¬ (natDigits x.toNat).length > 3 := by omega
+  have n4 : ¬ (x.toNat > 255) := by have := x.toNat_lt; omega
+  have nc : (c = 46 || c = 101 || c = 69) = false := by rcases hc with rfl | rfl <;> decide
+  simp only [n1, Bool.false_eq_true, if_false, n2, n3, h5, n4, nc, UInt8.ofNat_toNat]
+
+theorem skipWs_cons (c : UInt8) (r : Bytes) (h : isWs c = false) : skipWs (c :: r) = c :: r := by
+  simp [skipWs, h]
+
+def headOk (i : Nat) : Bool := match natDigits i with | c :: _ => !isWs c && c != 93 | [] => false
+theorem headOk_all : ∀ i : Fin 256, headOk i.1 = true := by decide +kernel
+
+theorem skipWs_digits (x : UInt8) (rest : Bytes) : skipWs (natDigits x.toNat ++ rest) = natDigits x.toNat ++ rest := by
+  have h := headOk_all ⟨x.toNat, x.toNat_lt⟩
+  unfold headOk at h
+  split at h
+  · rename_i c r heq
+    simp only at heq
+    rw [heq, List.cons_append, skipWs_cons _ _ (by simp at h; exact h.1)]
+  · cases h
+
+/-- body of a non-empty array: digits separated by commas -/
+def body : UInt8 → Bytes → Bytes
+  | x, [] => natDigits x.toNat
+  | x, y :: ys => natDigits x.toNat ++ 44 :: body y ys
+
+theorem natDigits_ne_nil (n : Nat) : 1 ≤ (natDigits n).length := by
+  unfold natDigits
+  split
+  · simp
+  · split <;> simp
+
+theorem body_length (x : UInt8) (xs : Bytes) : xs.length + 1 ≤ (body x xs).length := by
+  induction xs generalizing x with
+  | nil => simpa [body] using natDigits_ne_nil x.toNat
+  | cons y ys ih =>
+    have := ih y
+    have := natDigits_ne_nil x.toNat
+    simp only [body, List.length_append, List.length_cons]; omega
+
+theorem jsonElems_body (x : UInt8) (xs : Bytes) : ∀ (fuel : Nat) (acc rest : Bytes), xs.length < fuel →
+    jsonElems fuel (body x xs ++ 93 :: rest) acc = some (acc ++ x :: xs, rest) := by
+  induction xs generalizing x with
+  | nil =>
+    intro fuel acc rest hf
+    obtain ⟨f, rfl⟩ : ∃ f, fuel = f + 1 := ⟨fuel - 1, by omega⟩
+    simp only [body, jsonElems, skipWs_digits, takeU8_digits x 93 rest (Or.inr rfl),
+      skipWs_cons 93 rest (by decide)]
+  | cons y ys ih =>
+    intro fuel acc rest hf
+    obtain ⟨f, rfl⟩ : ∃ f, fuel = f + 1 := ⟨fuel - 1, by omega⟩
+    simp only [body, jsonElems, List.append_assoc, List.cons_append, skipWs_digits,
+      takeU8_digits x 44 _ (Or.inl rfl), skipWs_cons 44 _ (by decide)]
+    rw [ih y f (acc ++ [x]) rest (by simp at hf; omega)]
+    simp
+
+theorem jsonOfBytes_eq (x : UInt8) (xs : Bytes) : jsonOfBytes (x :: xs) = 91 :: (body x xs ++ [93]) := by
+  unfold jsonOfBytes
+  simp only [List.map_cons, List.cons_append, List.nil_append, List.cons.injEq, true_and]
+  congr 1
+  induction xs generalizing x with
+  | nil => simp [body]
+  | cons y ys ih =>
+    simp only [List.map_cons, List.intersperse_cons₂, List.flatten_cons, body, List.cons_append, List.nil_append]
+    rw [ih y]
+
+/-- reading back what the writer wrote: `read_json ∘ write_json = id` on byte arrays -/
+theorem json_roundtrip (b : Bytes) : jsonBytes (jsonOfBytes b) = some b := by
+  cases b with
+  | nil => decide
+  | cons x xs =>
+    rw [jsonOfBytes_eq]
+    unfold jsonBytes
+    rw [skipWs_cons 91 _ (by decide)]
+    simp only
+    have hne : skipWs (body x xs ++ [93]) = body x xs ++ [93] := by
+      cases xs with
+      | nil => exact skipWs_digits x [93]
+      | cons y ys => simp only [body, List.append_assoc]; exact skipWs_digits x _
+    have hhead : ∃ c r, body x xs ++ [93] = c :: r ∧ c ≠ 93 := by
+      have h := headOk_all ⟨x.toNat, x.toNat_lt⟩
+      unfold headOk at h
+      split at h
+      · rename_i c r heq
+        simp only at heq
+        simp only [Bool.and_eq_true, bne_iff_ne, ne_eq] at h
+        cases xs with
+        | nil => exact ⟨c, r ++ [93], by simp [body, heq], h.2⟩
+        | cons y ys => exact ⟨c, r ++ 44 :: (body y ys ++ [93]), by simp [body, heq], h.2⟩
+      · cases h
+    obtain ⟨c, r, hcr, hc93⟩ := hhead
+    rw [hne]
+    have hel := jsonElems_body x xs ((91 :: (body x xs ++ [93])).length + 1) [] [] (by have := body_length x xs; simp; omega)
+    simp only [List.nil_append] at hel
+    rw [hcr] at hel ⊢
+    split
+    · rename_i r' heq
+      simp only [List.cons.injEq] at heq
+      exact absurd heq.1 hc93
+    · rw [hel]; simp [skipWs]
 
 end Zk.Props.C12
